@@ -121,6 +121,78 @@ def relevant(f, pid):
     return pid in f.props
 
 
+# names std collections also use: a textual `.insert(` says nothing about which `insert` is meant
+_COMMON = set("new default insert remove get get_mut clear len is_empty push pop contains contains_key iter iter_mut update add "
+              "increment reset close clone drop from into cost".split())
+
+
+def caller_props(asm):
+    """fn name -> properties of every unit function that (transitively) calls it.  Verification is modular: the proof of a
+    caller only knows the callee's contract, so a callee whose contract no longer holds invalidates every caller's proof.
+    Calls are recognised textually in the emitted bodies (`.name(` / `::name(`); names shared with std collections count
+    only in the qualified form `Type::name(`."""
+    short = {}
+    for name in asm.fns:
+        if asm.fns[name].get("auto"):
+            continue
+        short.setdefault(name.split("::")[-1].split("#")[0], []).append(name)
+    bodies = {}
+    for k, ln in enumerate(asm.lines):
+        o = asm.origin[k]
+        if o.fn and o.kind == "body" and o.fn in asm.fns:
+            bodies.setdefault(o.fn, []).append(ln)
+    # declared field types of the unit's structs (`pub em: ExpirationMap<ES>`): resolves `self.em.try_insert(` to its owner
+    ftypes = {}
+    for ln in asm.lines:
+        for m in re.finditer(r"\bpub\s+(\w+)\s*:\s*(?:(?:Arc|Box|Option|Ghost|Tracked)\s*<\s*)*(\w+)", ln):
+            ftypes.setdefault(m.group(1), set()).add(m.group(2))
+    calls = {f: set() for f in asm.fns}
+    for f, lines in bodies.items():
+        text = "\n".join(lines)
+        fowner = f.split("::")[0] if "::" in f else None
+        for s, targets in short.items():
+            for g in targets:
+                if g == f:
+                    continue
+                owner = g.split("::")[0] if "::" in g else None
+                hit = False
+                if owner and re.search(r"\b%s\s*::\s*%s\s*\(" % (re.escape(owner), re.escape(s)), text):
+                    hit = True
+                elif owner and any(owner in ftypes.get(m.group(1), ()) for m in re.finditer(r"\.\s*(\w+)\s*\.\s*%s\s*\(" % re.escape(s), text)):
+                    hit = True
+                elif owner and owner == fowner and re.search(r"\b(self|vx_self|Self)\s*(\.|::)\s*%s\s*\(" % re.escape(s), text):
+                    hit = True
+                elif s not in _COMMON and len(targets) == 1:
+                    for m in re.finditer(r"(?:\.\s*(\w+)\s*)?(\.|::|\b)%s\s*\(" % re.escape(s), text):
+                        fld = m.group(1)
+                        if fld and fld in ftypes and owner and owner not in ftypes[fld]:
+                            continue    # `x.<field>.name(` where the field is declared with another type
+                        hit = True
+                        break
+                if hit:
+                    calls[f].add(g)
+    out = {g: set() for g in asm.fns}
+    for f in asm.fns:
+        seen, todo = set(), [f]
+        while todo:
+            x = todo.pop()
+            for g in calls.get(x, ()):
+                if g not in seen:
+                    seen.add(g)
+                    todo.append(g)
+        for g in seen:
+            out[g] |= set(asm.fns[f]["props"])
+            out[g].add("via:" + f)
+    return out
+
+
+def units_fn_props(units, uname, fn):
+    for u in units:
+        if u["name"] == uname and u["asm"] is not None:
+            return u["asm"].fns.get(fn, {}).get("props", ())
+    return ()
+
+
 def main(argv=None):
     argv = list(sys.argv[1:] if argv is None else argv)
     if not argv:
@@ -219,6 +291,19 @@ def _run(pid, cfg, tier, seed, repo, work, t0):
         trusted += k.get("trusted", [])
 
     mine = [(u, f) for (u, f) in failures if relevant(f, pid)]
+    # a failed clause of a callee invalidates the proofs of its callers: the failure also counts for the callers' properties
+    cprops = {u["name"]: caller_props(u["asm"]) for u in units if u["asm"] is not None}
+    for (u, f) in failures:
+        if relevant(f, pid) or f.fn == "<template>":
+            continue
+        cp = cprops.get(u, {}).get(f.fn, set())
+        if pid in cp:
+            via = sorted(x[4:] for x in cp if x.startswith("via:") and pid in units_fn_props(units, u, x[4:]))
+            f.message += " [counts for %s through its caller(s) %s, whose proofs assume this contract]" % (pid, ", ".join(via[:3]))
+            f.props = tuple(f.props) + (pid,)
+            mine.append((u, f))
+            if not any(o["function"] == f.fn and o["obligation"] == f.label for o in obligations):
+                obligations.append(dict(unit=u, function=f.fn, obligation=f.label, kind="callee-contract", clause=f.clause_text, backend="verus/z3"))
     tmpl = [(u, f) for (u, f) in failures if f.fn == "<template>"]
     for (u, f) in tmpl:
         undecided.append("%s: a hand-written lemma/glue obligation failed (%s at %s) — machinery problem, not a verdict" % (u, f.message, f.where))
@@ -310,7 +395,7 @@ def _run(pid, cfg, tier, seed, repo, work, t0):
     # failing input on this tree is a violation, the sweep itself is never counted as proof)
     if tier == "thorough" and cfg.get("replay"):
         from . import replay as rp
-        known_open = [k for k in load_known() if k.get("property") == pid and k.get("status") == "open"]
+        known_open = [k for k in load_known() if k.get("status") == "open"]
         sweep = dict(groups=cfg["replay"], seeds=[], failures=0, note="sampling; not proof")
         for s_ in (seed, seed + 1, seed + 2):
             fails, out = rp.run_oracles(cfg["replay"], repo, work, s_)
@@ -374,6 +459,8 @@ def _run(pid, cfg, tier, seed, repo, work, t0):
             if any(k.get("obligation") == key for k in known_open):
                 lines.append("KNOWN-FINDING: property=%s %s" % (pid, key))
                 continue
+            if any(k.get("obligation") == key and k.get("status") == "open" for k in load_known()):
+                continue    # a recorded open finding of another property (its own check reports it)
             os.makedirs(os.path.join(ROOT, "replays"), exist_ok=True)
             path = os.path.join(ROOT, "replays", "%s-%d.json" % (pid, n))
             with open(path, "w") as fo:
